@@ -797,7 +797,7 @@ func (x *Unit) applyContract(st *State, pc *preparedCall) []Term {
 	if len(c.Monitor) > 0 {
 		env := x.contractEnv(st, pre, pc, rets)
 		for _, en := range c.Monitor {
-			x.assume(st, env.boolOf(en.Expr))
+			x.assumeAs(st, en.Label, env.boolOf(en.Expr))
 		}
 	}
 	// the callee's let-bindings are values of its entry state
@@ -820,11 +820,23 @@ func (x *Unit) applyContract(st *State, pc *preparedCall) []Term {
 		for k, v := range letVals {
 			env.names[k] = v
 		}
+		// exported ghosts: their final values are fresh constants the caller can read with ghostof(callee, name)
+		for _, gname := range c.Exports {
+			for _, g := range c.Ghosts {
+				if g.Name == gname {
+					env.typePkg = c.Pkg
+					so, gt := env.resolveSort(g.Type)
+					v := x.freshVal("gout:"+gname, so, gt)
+					env.names[gname] = v
+					x.lastGhost[pc.name+":"+gname] = v
+				}
+			}
+		}
 		for _, en := range c.Ensures {
 			if isFrameInternal(en.Expr, c) {
 				continue // talks about the callee's own call trace / ghost state: meaningless to the caller
 			}
-			x.assume(st, env.boolOf(en.Expr))
+			x.assumeAs(st, en.Label, env.boolOf(en.Expr))
 		}
 	}
 	if c.MayPanic || (c.Interferes && !c.NoPanic) {
@@ -833,7 +845,7 @@ func (x *Unit) applyContract(st *State, pc *preparedCall) []Term {
 			ps := st.clone()
 			env := x.contractEnv(ps, pre, pc, rets)
 			for _, en := range c.Panics {
-				x.assume(ps, env.boolOf(en.Expr))
+				x.assumeAs(ps, en.Label, env.boolOf(en.Expr))
 			}
 			x.raiseFromCall(ps, pc.name, callIdx, pv)
 		} else {
@@ -1504,6 +1516,9 @@ func isFrameInternal(e SExpr, c *FuncContract) bool {
 	ghosts := map[string]bool{}
 	for _, g := range c.Ghosts {
 		ghosts[g.Name] = true
+	}
+	for _, g := range c.Exports {
+		delete(ghosts, g)
 	}
 	found := false
 	var walk func(e SExpr)
